@@ -315,6 +315,10 @@ package gen
 //@   ensures[C03] #res1 > #arg2 && #res0 >= #arg1 && #res0 - #arg1 <= #res1 - #arg2
 //@   ensures[C03] #res2 == #arg3 || (#res2 - #arg3 == #res1 - #arg2 && res2[#arg3] == 0 && (forall k in #arg3 + 1..#res2: res2[k] >= 1))
 //@   ensures[C03] #res2 == #arg3 ==> #res1 == #arg2 + 1
+// levels never exceed the column's maximum; the maxima come from an oracle over the Go struct
+// types of the proof corpus (contracts/defs/corpus_levels.spec), not from the generator
+//@   ensures[C03] forall k in #arg2..#res1: res1[k] <= fnconst("maxDef", self)
+//@   ensures[C03] forall k in #arg3..#res2: res2[k] <= fnconst("maxRep", self)
 //@   ensures[C03] (forall k in 0..#arg2: res1[k] == old(arg2[k])) && (forall k in 0..#arg3: res2[k] == old(arg3[k])) && (forall k in 0..#arg1: res0[k] == old(arg1[k]))
 //@ end template
 //@ loop read*#*
@@ -324,6 +328,7 @@ package gen
 //@   invariant[C03] rangeindex + 1 >= 1 ==> #defs > old(#defs)
 //@   invariant[C03] (#reps == old(#reps) ==> lastRep == 0) && (#reps > old(#reps) ==> reps[old(#reps)] == 0) && (#reps > old(#reps) && rangeindex + 1 == 0 ==> lastRep >= 1)
 //@   invariant[C03] forall k in old(#reps) + 1..#reps: reps[k] >= 1
+//@   invariant[C03] (forall k in old(#defs)..#defs: defs[k] <= fnconst("maxDef", thisfn())) && (forall k in old(#reps)..#reps: reps[k] <= fnconst("maxRep", thisfn())) && lastRep <= fnconst("maxRep", thisfn())
 //@   invariant[C03] (forall k in 0..old(#defs): defs[k] == old(defs[k])) && (forall k in 0..old(#reps): reps[k] == old(reps[k])) && (forall k in 0..old(#vals): vals[k] == old(vals[k]))
 //@ loop read*#1
 //@   invariant sameOrFresh2(vals, old(vals)) && sameOrFresh2(defs, old(defs)) && sameOrFresh2(reps, old(reps))
@@ -333,6 +338,7 @@ package gen
 //@   invariant[C03] rangeindex + 1 == 0 ==> #reps == old(#reps)
 //@   invariant[C03] (#reps == old(#reps) ==> lastRep == 0) && (#reps > old(#reps) ==> reps[old(#reps)] == 0)
 //@   invariant[C03] forall k in old(#reps) + 1..#reps: reps[k] >= 1
+//@   invariant[C03] (forall k in old(#defs)..#defs: defs[k] <= fnconst("maxDef", thisfn())) && (forall k in old(#reps)..#reps: reps[k] <= fnconst("maxRep", thisfn())) && lastRep <= fnconst("maxRep", thisfn())
 //@   invariant[C03] (forall k in 0..old(#defs): defs[k] == old(defs[k])) && (forall k in 0..old(#reps): reps[k] == old(reps[k])) && (forall k in 0..old(#vals): vals[k] == old(vals[k]))
 
 // ---- statistics accumulators (C12)
